@@ -32,7 +32,7 @@ var mrNames = []string{"True", "False", "NoData", "OptionalNoData"}
 func runC11(x *Ctx) {
 	x.C.Rule("C11.R1", "statement kinds: constants = evaluator cases = decoder cases; struct types agree; constructors faithful", 14)
 	x.C.Rule("C11.R2", "comparator wiring and truth sets; equality; negation table", 12)
-	x.C.Rule("C11.R3", "and/or/all/any fold tables and laws (permutation invariance, monotonicity, corners)", 8)
+	x.C.Rule("C11.R3", "and/or/all/any fold tables and laws (permutation invariance, monotonicity, corners); no answer bypasses the fold", 12)
 	x.C.Rule("C11.R4", "missing data: selector error -> NoData, optional miss -> OptionalNoData; kind mismatches -> False", 18)
 	x.C.Rule("C11.R5", "PartialMatch fails only on False", 6)
 
@@ -719,6 +719,40 @@ func foldTable(x *Ctx, ms *ssa.Function, k string, ps []*paths.Path, mr map[stri
 	}
 	x.C.Obl("C11.R3", "table-read:"+k, x.pos(ms), "transition table and fall-off value of "+k+" are read off the CFG", fall != "",
 		fmt.Sprintf("table %v fall-off %q", table, fall))
+	// nothing answers for the fold: a path of this kind that returns without reaching the loop may only report
+	// missing data (NoData / OptionalNoData), or False because the selected value is not a list; True, and False
+	// for any other reason, come out of the loop or of its exhaustion
+	{
+		bypass := ""
+		for _, p := range ps {
+			if p.End != paths.EndReturn || p.InBlock(loop.Header) || len(p.Results()) == 0 {
+				continue
+			}
+			c, isConst := paths.ConstInt(p.Results()[0])
+			if !isConst {
+				continue // the result of a helper: classified where it is computed
+			}
+			// the empty connective, answered before the loop on a test of the number of operands
+			if len(p.Facts) > 0 {
+				if last := p.Facts[len(p.Facts)-1].Atom; (last.Op == "eq" || last.Op == "lt") && strings.Contains(last.String(), "len(") && strings.Contains(last.String(), ".statements") {
+					continue
+				}
+			}
+			switch byVal[c] {
+			case "NoData", "OptionalNoData":
+				continue
+			case "False":
+				if len(p.Facts) > 0 {
+					last := p.Facts[len(p.Facts)-1].Atom.String()
+					if strings.Contains(last, "ListIterator") || strings.Contains(last, "Node.Kind]") || strings.Contains(last, "AsString") {
+						continue
+					}
+				}
+			}
+			bypass += fmt.Sprintf("a path of %s answers %s without evaluating the operands in the loop:\n%s\n", k, byVal[c], p.String())
+		}
+		x.C.Obl("C11.R3", "no-bypass:"+k, x.pos(ms), "every True (and every False not due to a non-list value) of "+k+" comes out of the fold over the operands", bypass == "", firstLines(bypass, 14))
+	}
 	if fall == "" {
 		return
 	}
